@@ -22,6 +22,11 @@ RULE = ('forward values of every nn op over the C02 generators (activations, sof
         'program whose public attributes (reduction; kernel_size, stride, padding, dilation, pad_value, output_size; negative_slope; '
         'dim; start_dim, end_dim) are assigned after construction and which is called again after every assignment: each call must '
         'equal the op with the attribute values of that moment. '
+        'REPEATED CALLS: one layer object / one set of running-statistics buffers per program called K times (2..8, and 50..64 for eval-mode '
+        'batch norm with eps 1e-3 / 1e-5 / 0.1, float64 and float32) on the same operands with a second input in between, every call followed '
+        'by a backward pass: every answer against the model, call k = call 1 bit for bit, and running_mean / running_var / weights / operands '
+        'bit-identical before and after every call that is not a training-mode statistics update; `mf` programs of BatchNorm1d / Dropout / '
+        'Linear objects alone or in a Sequential through train -> eval -> K forwards -> train -> eval with the state read after every phase. '
         'Non-trivial: accepted configuration with more than one output element.')
 EXHAUSTIVE = {'quick': False, 'thorough': False}
 ASSUMPTIONS = ['float64 values (rel 1e-9; float32 leaves rel 1e-6); torch is used only as the oracle of the failing-input search',
@@ -254,6 +259,110 @@ def reconf_case(rng, op):
     return {'kind': 'reconf', 'op': op, 'leaves': leaves, 'cfgs': cfgs, 'malformed': False, 'lines': lines}
 
 
+# ---- REPEATED CALLS of stateful / parameterised layer objects ------------------------------------------------------------
+# (B) `repeat`: one op line written K times over the same operands (and a second input in between): the implementation side keeps
+#     ONE layer object / ONE set of running-statistics buffers for the whole program (StatefulImpl), every call is followed by a
+#     backward pass, and after every call that is not a training-mode statistics update the persistent arrays (running_mean,
+#     running_var, weights, biases, the operands themselves) must be bit-identical to what they were before it.
+# (A) `mfrep`: `mf` programs (lean/SynapModel/Drv/ModuleFwd.lean) — BatchNorm1d / Dropout / Linear objects, alone or inside a
+#     Sequential: training forwards, eval(), K eval-mode forwards (50+ in the long ones), train() / eval() again; every output and
+#     the state after every phase against the model, plus the same bit-identity rule for eval-mode forwards and backwards.
+REPEAT_OPS = ['batch_norm'] * 6 + ['conv1d', 'conv2d', 'linear', 'linear', 'max_pool1d', 'max_pool2d', 'avg_pool1d', 'avg_pool2d', 'unfold', 'fold',
+                                    'softmax', 'log_softmax', 'leaky_relu']
+
+
+def repeat_case(rng, op, long=False):
+    dt = rng.pick(['f64', 'f64', 'f32'])
+    save = gen_ops.WIDE_LEVELS
+    gen_ops.WIDE_LEVELS = save and dt == 'f64'
+    try:
+        while True:
+            leaves, args = gen_ops.gen_nn(rng, op, False)
+            if int(np.prod(leaves[0][0])) <= (60 if long else 400): break
+    finally:
+        gen_ops.WIDE_LEVELS = save
+    args = list(args)
+    mode = None
+    if op == 'batch_norm':
+        mode = 'eval' if long else rng.pick(['eval', 'eval', 'eval', 'eval', 'train'])
+        ch = leaves[0][0][1]
+        args[2] = int(mode == 'train')
+        if mode == 'eval' and (long or rng.chance(.9)) or mode == 'train' and rng.chance(.5):
+            args[4] = show_floats([rng.dyadic(-1, 1) for _ in range(ch)])
+            args[5] = show_floats([rng.pick([0.02, 0.25, 0.5, 1.0, 1.0, 1.5, 3.0]) for _ in range(ch)])      # running variances small and large against eps
+        else:
+            args[4] = args[5] = '-'
+        args[3] = fbits(rng.pick([1e-3, 1e-5, 1e-5, 0.1]))
+    if dt == 'f32':
+        leaves = [tuple([lf[0], [float(np.float32(v)) for v in lf[1]]] + list(lf[2:])) for lf in leaves]
+    K = rng.randint(50, 64) if long else rng.pick([2, 2, 3, 4, 6])
+    nl = len(leaves)
+    two = rng.chance(.5) and K > 2
+    if two:       # a second input of the same shape, served in between: the first input must then give its first answer again
+        x2 = gen_ops.vals(rng, leaves[0][0])
+        if dt == 'f32': x2 = [float(np.float32(v)) for v in x2]
+        leaves = leaves + [(leaves[0][0], x2, leaves[0][2])]
+    inputs = [0] + [rng.pick([0, nl]) if two else 0 for _ in range(K - 2)] + [0]
+    c = {'kind': 'repeat', 'op': op, 'leaves': leaves, 'args': args, 'dt': dt, 'malformed': False, 'K': K, 'mode': mode, 'inputs': inputs, 'nl': nl}
+    lines = [gen_dag.leaf_line(lf[0], lf[1], lf[2], lf[3] if len(lf) > 3 else dt) for lf in leaves]
+    watch = set(range(K)) if K <= 8 else {0, 1, 2, K // 2, K - 1}
+    for j, i0 in enumerate(inputs):
+        lines.append(' '.join(['t op', op, show_ints([i0] + list(range(1, nl)))] + [str(a) for a in args]))
+        if j in watch: lines.append(f't val {len(leaves) + j}')
+    c['lines'] = lines
+    return c
+
+
+def mfrep_case(rng, long=False):
+    V = lambda sh, kind='any': gen_ops.vals(rng, sh, kind)
+    L = []
+    new = lambda l: (L.append('mf ' + l), sum(1 for q in L if q.split(' ')[1] in ('linear', 'neuron', 'act', 'flatten', 'bn', 'dropout', 'seq', 'seqd')) - 1)[1]
+    C = rng.randint(1, 3)
+    rest = rng.pick([(), (), (rng.randint(1, 3),)])
+    mo, eps = rng.pick([None, .1, .1, .5, 1.0]), rng.pick([1e-5, 1e-5, 1e-3, 1e-3, 0.1])
+    aff, track = rng.pick([(True, True), (True, True), (True, True), (False, True), (True, False)])
+    bn = new(f"bn {C} {common.show_opt(lambda v: str(fbits(v)), mo)} {fbits(eps)} {int(aff)} {int(track)} "
+             f"{common.show_opt(show_floats, V((C,), 'pos') if aff and rng.chance(.7) else None)} {common.show_opt(show_floats, V((C,)) if aff and rng.chance(.7) else None)}")
+    target, d_in, members = bn, C, [bn]
+    drop = None
+    if not rest and rng.chance(.5):      # the layer inside a model: Linear in front, activation / Dropout behind, one Sequential (members may repeat)
+        order = [bn]
+        if rng.chance(.6):
+            d_in = rng.randint(1, 3)
+            order.insert(0, new(f"linear {d_in} {C} {int(True)} {show_floats(V((C, d_in)))} {show_floats(V((C,)))}"))
+        if rng.chance(.5): order.append(new('act ' + rng.pick(['relu', 'tanh', 'sigmoid'])))
+        if rng.chance(.6):
+            drop = len(L); order.append(new('dropout ?'))
+        if rng.chance(.3): order.append(bn)
+        members = order
+        target = new('seq ' + show_ints(order))
+    n = rng.randint(2, 4)
+    xs = (n, d_in) + rest
+    ntrain = 0
+    def fwd(sh, data): L.append(f'mf fwd {target} {show_ints(sh)} {show_floats(data)}')
+    def states():
+        for k in sorted(set(members)):
+            if k == bn or (drop is not None and L[drop].split(' ')[1] == 'dropout' and k == members[-1 if members[-1] != bn else -2]): L.append(f'mf state {k}')
+    pre = 0 if long and rng.chance(.3) else rng.randint(0, 3)
+    for _ in range(pre):
+        fwd(xs, V(xs)); ntrain += 1
+    states()
+    L.append(f'mf train {target} 0')
+    K = rng.randint(50, 64) if long else rng.pick([2, 3, 3, 5, 8])
+    n_ev = rng.pick([1, n, n]) if track else n         # a batch of one sample is an ordinary eval-mode input
+    x1, x2 = V((n_ev, d_in) + rest), V((n_ev, d_in) + rest)
+    seq = [x1] + [rng.pick([x1, x1, x2]) for _ in range(K - 2)] + [x1]
+    for x in seq: fwd((n_ev, d_in) + rest, x)
+    states()
+    if rng.chance(.4):      # back to training for one batch, then inference again
+        L.append(f'mf train {target} 1'); fwd(xs, V(xs)); ntrain += 1; states()
+        L.append(f'mf train {target} 0'); fwd((n_ev, d_in) + rest, x1); fwd((n_ev, d_in) + rest, x1); states()
+    if drop is not None:
+        L[drop] = f"mf dropout {fbits(rng.pick([0.0, 0.25, 0.5, 0.5, 0.75]))} {show_floats([rng.random() for _ in range((ntrain + 1) * n * C * 2)])}"
+    return {'kind': 'mfrep', 'op': 'BatchNorm1d' + ('' if target == bn else ' in Sequential'), 'lines': L, 'malformed': False, 'K': K, 'eps': eps, 'pre': pre, 'track': track}
+
+
+
 def cases(rng, tier):
     out = []
     gen_ops.WIDE_LEVELS = True
@@ -271,6 +380,15 @@ def cases(rng, tier):
     for op in RECONF_OPS:
         for _ in range((12 if op == 'loss' else 8) if tier == 'quick' else 200):
             out.append(reconf_case(rng, op))
+    # repeated calls of one layer object / one set of buffers (eval-mode BatchNorm 50+ times in the long ones)
+    for j in range(70 if tier == 'quick' else 2000):
+        out.append(repeat_case(rng, rng.pick(REPEAT_OPS)))
+    for j in range(3 if tier == 'quick' else 40):
+        out.append(repeat_case(rng, 'batch_norm', long=True))
+    for j in range(50 if tier == 'quick' else 1500):
+        out.append(mfrep_case(rng))
+    for j in range(3 if tier == 'quick' else 40):
+        out.append(mfrep_case(rng, long=True))
     for c in out:
         c['desc'] = ' ; '.join(c['lines'])[:600]
     return out
@@ -387,7 +505,144 @@ class ReconfImpl(tprog.Impl):
         return f't{len(self.ts) - 1}'
 
 
+def _snap(obj, seen=None, path=''):
+    """every array an object holds on to: {path: (dtype, shape, bytes)} over tensors, parameters, sub-modules and containers"""
+    from synapgrad.nn.modules import Module
+    sg = common.impl()
+    seen = set() if seen is None else seen
+    out = {}
+    if id(obj) in seen and not isinstance(obj, (sg.Tensor, np.ndarray)): return out
+    if isinstance(obj, sg.Tensor):       # (recorded under every path that reaches it)
+        out[path] = (str(obj.data.dtype), obj.data.shape, obj.data.tobytes())
+    elif isinstance(obj, np.ndarray):
+        out[path] = (str(obj.dtype), obj.shape, obj.tobytes())
+    elif isinstance(obj, Module):
+        seen.add(id(obj))
+        for k, v in vars(obj).items():
+            if k in ('_submodules', '_parameters') or isinstance(v, (sg.Tensor, Module, np.ndarray)):
+                out.update(_snap(v, seen, f'{path}.{k}'))
+            elif k == 'num_batches_tracked': out[f'{path}.{k}'] = v
+    elif isinstance(obj, dict):
+        for k, v in obj.items(): out.update(_snap(v, seen, f'{path}[{k}]'))
+    elif isinstance(obj, (list, tuple)):
+        for k, v in enumerate(obj): out.update(_snap(v, seen, f'{path}[{k}]'))
+    return out
+
+
+def _snap_diff(a, b):
+    """paths present before AND after the call whose array changed (an object built by the call is no change)"""
+    return sorted(k for k in set(a) & set(b) if a[k] != b[k])
+
+
+class StatefulImpl(ReconfImpl):
+    """the program's op lines go through ONE object per layer class (ReconfImpl) — here also nn.Linear, nn.BatchNorm1d / 2d and the
+    running-statistics tensors handed to F.batch_norm, which live as long as the program —, every call is followed by a backward
+    pass, and a call that is not a training-mode statistics update must leave every persistent array and every operand as it was"""
+    def __init__(self):
+        super().__init__()
+        self.bnobjs, self.lin, self.changed, self.ncalls = {}, {}, [], 0
+
+    def call_op(self, name, ins, args):
+        sg, nn = self.sg, self.nn
+        x = [self.ts[i] for i in ins]
+        args = [str(a) for a in args]
+        self.ncalls += 1
+        updates = False
+        if name == 'batch_norm':
+            hw, hb, tr = bool(int(args[0])), bool(int(args[1])), bool(int(args[2]))
+            w = x[1] if hw else None
+            b = (x[2] if hw else x[1]) if hb else None
+            eps, ch, dtp = common.bitsf(args[3]), x[0].shape[1], x[0].data.dtype
+            key = (args[3], args[4], args[5], tr, ch, str(dtp), x[0].ndim == 4)
+            if key not in self.bnobjs:
+                rm = None if args[4] == '-' else sg.Tensor(np.array(common.parse_floats(args[4]), dtype=dtp))
+                rv = None if args[5] == '-' else sg.Tensor(np.array(common.parse_floats(args[5]), dtype=dtp))
+                layer = None
+                if hw == hb:
+                    layer = (nn.BatchNorm2d if x[0].ndim == 4 else nn.BatchNorm1d)(ch, eps=eps, momentum=0.1, affine=hw, track_running_stats=rm is not None, dtype=dtp.type)
+                    if rm is not None: layer.running_mean, layer.running_var = rm, rv
+                    if hw:       # the layer's parameters ARE the program's operand tensors
+                        layer._parameters.clear()
+                        object.__setattr__(layer, 'weight', w); object.__setattr__(layer, 'bias', b)
+                    layer.train() if tr else layer.eval()
+                self.bnobjs[key] = (layer, rm, rv)
+            layer, rm, rv = self.bnobjs[key]
+            updates = tr and rm is not None
+            def run():
+                if layer is not None and self.ncalls % 3 != 0:       # the layer object two times out of three, the function on the same buffers otherwise
+                    return layer(x[0])
+                return sg.batch_norm(x[0], w, b, rm, rv, tr, 0.1, eps)
+        elif name == 'linear':
+            w = x[1]; b = x[2] if len(x) > 2 else None
+            if id(w) not in self.lin:
+                m = nn.Linear(w.shape[1], w.shape[0], bias=b is not None)
+                m._parameters.clear()
+                object.__setattr__(m, 'weight', w); object.__setattr__(m, 'bias', b)
+                self.lin[id(w)] = m
+            run = lambda: self.lin[id(w)](x[0]) if self.ncalls % 3 != 0 else sg.linear(x[0], w, b)
+        elif name in RECONF_OPS:
+            run = lambda: ReconfImpl.call_op(self, name, ins, args)
+        else:
+            run = lambda: tprog.Impl.call_op(self, name, ins, args)
+        held = [self.objs, self.bnobjs, self.lin, x]
+        before = _snap(held)
+        out = run()
+        o = out[0] if isinstance(out, (tuple, list)) else out
+        if o.requires_grad:
+            o.backward(sg.Tensor(np.ones_like(o.data)))
+        if not updates:
+            diff = _snap_diff(before, _snap([self.objs, self.bnobjs, self.lin, x]))
+            if diff:
+                self.changed.append((self.ncalls, diff))
+                raise RuntimeError(f'call {self.ncalls} changed persistent state: {diff}')
+        return out
+
+
+class RepModImpl(tprog.ModImpl):
+    """ModImpl whose forward calls are followed by a backward pass; an eval-mode call must leave every array of the module tree
+    bit-identical (answer suffix ` state-changed:<paths>` otherwise)"""
+    def __init__(self):
+        super().__init__()
+        self.changed = []
+
+    def run(self, line):
+        t = line.split(' ')
+        if t[1] != 'fwd': return super().run(line)
+        sg = self.sg
+        m = self.ms[int(t[2])]
+        a = tprog.parse_arr(t[3] + '|' + t[4])
+        x = sg.Tensor(a.copy(), requires_grad=True)
+        before = _snap(m)
+        orig = np.random.rand
+        np.random.rand = self._rand
+        try:
+            out = m(x)
+            if out.requires_grad: out.backward(sg.Tensor(np.ones_like(out.data)))
+        finally:
+            np.random.rand = orig
+        ans = tprog.show_arr(out.data)
+        if not m.training:
+            diff = _snap_diff(before, _snap(m)) + ([] if np.array_equal(a, x.data, equal_nan=True) else ['<input>'])
+            if diff:
+                self.changed.append((line[:60], diff))
+                ans += ' state-changed:' + ','.join(diff)
+        return ans
+
+
 def _run(c, keep=None):
+    if c['kind'] == 'repeat':
+        im = StatefulImpl()
+        try:
+            return [im.exec(l) for l in c['lines']]
+        finally:
+            if keep is not None: keep.append(im.changed)
+            im.close()
+    if c['kind'] == 'mfrep':
+        im = RepModImpl()
+        try:
+            return [im.exec(l) for l in c['lines']]
+        finally:
+            if keep is not None: keep.append(im.changed)
     if c['kind'] != 'reconf':
         return tprog.run_program(c['lines'])
     im = ReconfImpl()
@@ -432,6 +687,9 @@ def compare(c, mo, io):
     if c['kind'] == 'layer':
         return [(c['lines'][0], m, i) for m, i in zip(mo, io) if m != i]
     rtol = 1e-6 if c.get('dt') == 'f32' else 1e-9
+    if c['kind'] == 'mfrep':
+        return [(c['lines'][k], m[:300], str(i)[:300]) for k, (m, i) in enumerate(zip(mo, io))
+                if not (m == i or (tprog.close_tokens(m, i, rtol) if ' ' in m or ' ' in str(i) else tprog.close_line(m, str(i), rtol)))][:3]
     if c.get('nanmax'):
         # the value line is judged against the definition (see ASSUMPTIONS); everything else against the model
         nl = len(c['leaves'])
@@ -457,6 +715,10 @@ def distribution(cases):
         if c.get('nanmax'): inc('max pooling with NaN cells (judged against the definition)')
         if c['kind'] == 'reconf':
             inc('re-configured object: calls after an attribute assignment', len(c['cfgs']) - 1)
+        if c['kind'] in ('repeat', 'mfrep'):
+            inc(f"repeated calls of one object ({c['kind']}): K " + ('>= 50' if c['K'] >= 50 else '< 10'))
+            inc('repeated calls: total', c['K'])
+            if c.get('mode'): inc(f"repeat: batch_norm {c['mode']} mode ({c['dt']})")
     return d
 
 
@@ -544,6 +806,8 @@ def oracle(c):
         return None
     if c['kind'] == 'reconf':
         return _reconf_oracle(c)
+    if c['kind'] in ('repeat', 'mfrep'):
+        return _repeat_oracle(c)
     io = tprog.run_program(c['lines'])
     nl = len(c['leaves'])
     cc = {k: v for k, v in c.items() if k in ('kind', 'op', 'leaves', 'args', 'malformed', 'lines', 'dt', 'special')}
@@ -565,7 +829,15 @@ def oracle(c):
         return None if np.allclose(got, r, rtol=1e-6, atol=1e-8) else {'key': dict(key, cls='value'), 'case': cc, 'what': 'bce differs from torch beyond its epsilon guard'}
     f32 = c.get('dt') == 'f32'
     if got.shape != r.shape or not np.allclose(got, r, rtol=1e-5 if f32 else 1e-8, atol=1e-6 if f32 else 1e-10, equal_nan=True):
-        return {'key': dict(key, cls='value'), 'case': cc, 'what': f"{c['op']}{c['args']}: {got.tolist()} (shape {got.shape}) vs torch {r.tolist()} (shape {r.shape})"}
+        cls = 'value'
+        # one specific, recorded deviation has a class of its own so that it cannot hide any other: a contraction through BLAS
+        # (np.tensordot) drops the term 0 * (+-inf) where the reference gives NaN — an exactly-zero weight against a non-finite input
+        if c['op'] in ('conv1d', 'conv2d') and got.shape == r.shape and len(c['leaves']) >= 2:
+            x = np.array(c['leaves'][0][1], dtype=np.float64); w = np.array(c['leaves'][1][1], dtype=np.float64)
+            bad = ~np.isclose(got, r, rtol=1e-5 if f32 else 1e-8, atol=1e-6 if f32 else 1e-10, equal_nan=True)
+            if np.isinf(x).any() and (w == 0).any() and np.isnan(r[bad]).all() and np.isfinite(got[bad]).all():
+                cls = 'zero-weight-times-inf'
+        return {'key': dict(key, cls=cls), 'case': cc, 'what': f"{c['op']}{c['args']}: {got.tolist()} (shape {got.shape}) vs torch {r.tolist()} (shape {r.shape})"}
     return None
 
 
@@ -598,6 +870,49 @@ def _reconf_oracle(c):
         if got.shape != r.shape or not np.allclose(got, r, rtol=1e-6 if loose else 1e-8, atol=1e-8 if loose else 1e-10, equal_nan=True):
             return {'key': {'op': c['op'], 'cls': 'reconfigured-object'}, 'case': cc,
                     'what': f"call {j} ({c['lines'][li]}) on the re-configured object returns {got.tolist()} (shape {got.shape}); the op with the attribute values of that moment (torch) gives {r.tolist()} (shape {r.shape}). {hist}"}
+    return None
+
+
+def _repeat_oracle(c):
+    """(i) a call that changed persistent state although it is no training-mode statistics update; (ii) a call whose answer differs
+    from the FIRST answer of the same object on the same input under the same state (eval mode: bit for bit); (iii) the first call
+    itself against torch (single-call oracle)"""
+    changed = []
+    io = _run(c, changed)
+    cc = {k: v for k, v in c.items() if k != 'desc'}
+    key = {'kind': c['kind'], 'op': c['op']}
+    if changed and changed[0]:
+        at, diff = changed[0][0]
+        return {'key': dict(key, cls='persistent-state-changed'), 'case': cc,
+                'what': f"call {at} of the repeated-call program changed {diff} although it neither trains nor updates statistics (eval-mode forward / backward must leave buffers and parameters bit-identical)"}
+    if c['kind'] == 'repeat':
+        nl = len(c['leaves'])
+        first = {}
+        for k, l in enumerate(c['lines']):
+            if not l.startswith('t val') or '|' not in str(io[k]): continue
+            j = int(l.split(' ')[2]) - nl
+            i0 = c['inputs'][j]
+            if i0 not in first: first[i0] = (j, io[k]); continue
+            if io[k] != first[i0][1]:
+                a, b = tprog.parse_arr(first[i0][1]), tprog.parse_arr(io[k])
+                return {'key': dict(key, cls='call-k-differs-from-call-1'), 'case': cc,
+                        'what': f"{c['op']}{c['args']}: call {j + 1} on the same operands returns another value than call {first[i0][0] + 1} (max abs difference {float(np.max(np.abs(a - b))) if a.shape == b.shape else 'shape'}); nothing but forward / backward calls in eval-like mode happened in between"}
+        sub = {'kind': 'op', 'op': c['op'], 'leaves': c['leaves'][:c['nl']], 'args': c['args'], 'malformed': False, 'dt': c['dt'],
+               'lines': c['lines'][:len(c['leaves'])] + [c['lines'][len(c['leaves'])].replace(f" {c['inputs'][0]},", ' 0,', 1), f"t val {len(c['leaves'])}"]}
+        sub['leaves'] = c['leaves']
+        return oracle(sub)
+    # mfrep: eval-mode answers on one input between two state changes must coincide bit for bit
+    seen, training = {}, True
+    for k, l in enumerate(c['lines']):
+        t = l.split(' ')
+        if t[1] == 'train': training = bool(int(t[3])); seen = {}
+        elif t[1] == 'fwd' and not training and '|' in str(io[k]):
+            kk = (t[3], t[4])
+            if kk in seen and seen[kk][1] != io[k]:
+                a, b = tprog.parse_arr(seen[kk][1].split(' ')[0]), tprog.parse_arr(io[k].split(' ')[0])
+                return {'key': dict(key, cls='eval-call-k-differs-from-call-1'), 'case': cc,
+                        'what': f"eval-mode forward number {k - seen[kk][0] + 1} of the same module on the same input differs from the first one (max abs difference {float(np.max(np.abs(a - b)))})"}
+            seen.setdefault(kk, (k, io[k]))
     return None
 
 
